@@ -74,7 +74,7 @@ func hopByHopHeaders(respHeader http.Header) map[string]struct{} {
 		// Also see net/http/response.go "respExcludeHeader" for additional excluded headers.
 	}
 	// Fields listed in the Connection header field
-	for field := range TrimmedCSVCanonicalSeq(respHeader.Get("Connection")) {
+	for field := range TrimmedCSVCanonicalSeq(strings.Join(respHeader.Values("Connection"), ",")) {
 		m[field] = struct{}{}
 	}
 	return m
